@@ -1,6 +1,7 @@
 (* Tables/ModelRib.v — executable model of fw/table/rib.go (RibTable/RibEntry: AddEncRoute, RemoveRouteEnc, CleanUpFace,
-   updateNexthopsEnc, pruneIfEmpty) and the specification of C06 (flattening of the registered routes).
-   The RIB drives the FIB through FibStrategyTable.ClearNextHopsEnc / InsertNextHopEnc: the model emits [fibop]s.
+   updateNexthopsEnc/collectNexthopsEnc, removeFaceRoutes, pruneIfEmpty, pruneEmptyBelow) and the specification of C06 (flattening of the registered routes).
+   The RIB drives the FIB through FibStrategyTable.ReplaceNextHopsEnc, which clears and re-inserts the next hops of each
+   listed prefix inside one critical section: the model emits the corresponding [fibop]s (Clr, then Ins per next hop).
    No proofs here. *)
 From Tables Require Export ModelAssoc ModelTree ModelFib.
 Open Scope N_scope.
@@ -67,6 +68,17 @@ Definition min_cost (rs : list route) : list nexthop :=
 Definition node_routes (t : rib) (p : name) : list route :=
   match get t p with Some nd => rn_routes nd | None => [] end.
 
+(* removeFaceRoutes: every entry loses the routes of the face *)
+Definition rem_face_all (t : rib) (f : N) : rib :=
+  map (fun kv => (fst kv, mkrnode (rn_named (snd kv)) (rem_face (rn_routes (snd kv)) f))) t.
+(* pruneEmptyBelow (bottom-up removal of entries without routes and without children), in closed form: an entry other
+   than the root stays iff it or an entry below it has routes *)
+Definition prune_all (t : rib) : rib :=
+  filter (fun kv => match fst kv with
+                    | [] => true
+                    | _ => existsb (fun kw => is_prefix (fst kv) (fst kw) && negb (rnode_emp (snd kw))) t
+                    end) t.
+
 Section Rib.
   (* the order in which Go iterates over the minCostRoutes map: an arbitrary permutation of its entries *)
   Variable shuffle : list nexthop -> list nexthop.
@@ -87,17 +99,6 @@ Section Rib.
   Definition update_subtree (t : rib) (p : name) : list fibop :=
     flat_map (local_update t) (filter (is_prefix p) (keys t)).
 
-  (* one entry of CleanUpFace's post-order walk *)
-  Definition clean_node (f : N) (st : rib * list fibop) (q : name) : rib * list fibop :=
-    match get (fst st) q with
-    | Some nd =>
-        if rn_named nd then
-          let t1 := set (fst st) q (mkrnode true (rem_face (rn_routes nd) f)) in
-          (prune rnode_emp t1 q, snd st ++ update_subtree t1 q)
-        else st
-    | None => st
-    end.
-
   Definition rib_step (t : rib) (o : ribop) : rib * list fibop :=
     match o with
     | Reg n r =>
@@ -113,8 +114,9 @@ Section Rib.
         | None => (t, [])
         end
     | Cleanup f =>
-        (* children before parents: a node is always created after its parent, so the reversed key list is a post-order *)
-        fold_left (clean_node f) (rev (keys t)) (t, [])
+        (* removeFaceRoutes on every entry, then one updateNexthopsEnc from the root, then pruneEmptyBelow *)
+        let t1 := rem_face_all t f in
+        (prune_all t1, update_subtree t1 [])
     end.
 
   (* a RIB history: final RIB tree and all FIB operations it issued, in order *)
